@@ -6,6 +6,7 @@ import NPModel.Refine.Validate
 import NPModel.Refine.Views
 import NPModel.Refine.Samples
 import NPModel.Refine.Observers
+import NPModel.Refine.FieldSubsets
 namespace NP.C03
 open NP
 variable {α : Type}
@@ -122,5 +123,13 @@ example : Samples.c1.Clean := by
   intro s hs
   simp only [Samples.c1, List.mem_cons, List.not_mem_nil, or_false] at hs
   rcases hs with rfl | rfl | rfl <;> (unfold PStruct.noHidden; decide)
+
+/-- **The flat view of SOME of the fields** (`to_flat(fields=…)`, any non-empty list of known names in any order):
+    the same flat index, and under every requested name the concatenation of THAT field's lists with that field's
+    declared type — a name never shows another field's values, whatever the stored order of the fields. -/
+theorem to_flat_of_named_fields (index : List Label) (c : PCol α) (h : c.Clean) (hidx : index.length = c.len)
+    (fs : List String) (hne : fs ≠ []) (hall : ∀ f ∈ fs, c.ty.any (·.1 == f) = true) :
+    NSeries.toFlat { index := index, col := c } (some fs) = Spec.toFlat index c.abs (some fs) :=
+  toFlat_fields_refines index c h hidx fs hne hall
 
 end NP.C03
